@@ -34,7 +34,7 @@ tvars == <<c, pc, run, pos, judged, skipped>>
 
 Case == Cases[c]
 Q == Case.q
-Sig == SigFor(Case.backend)
+Sig == SigForV(Case.backend, Case.declv)
 
 Report(clause, r, p) == PrintT(<<"VERDICT", Case.id, clause, r, p>>)
 \* evaluate all clauses, report each failing one, always TRUE
@@ -56,6 +56,20 @@ TranslateFails ==
   \cup (IF Case.translate.outcome = "ok" /\ Case.translate.residual # <<>> THEN {"NoResidualDirective"} ELSE {})
 
 CompileFails == IF Case.compile.ok THEN {} ELSE {"Compiles"}
+
+\* C06: every collection the query uses brings the link library the experiment documents for it
+\* (ATLAS: the rendered package's LINK_LIBRARIES), and - miniAOD - is read through a token that
+\* was declared and initialised with exactly its bank's tag; no token for anything else
+UsedColls == {p[1] : p \in CollNodes(Q)}
+LibFails ==
+  IF Case.backend = "atlas" /\ Case.translate.outcome = "ok"
+     /\ \E cl \in UsedColls : LibOf("atlas", cl) # "" /\ ~(Case.declv = "replace_A" /\ cl = "A")
+                              /\ LibOf("atlas", cl) \notin {Case.translate.libs[i] : i \in DOMAIN Case.translate.libs}
+  THEN {"LibrariesRequested"} ELSE {}
+TokenFails(b) ==
+  IF Case.backend = "cms_miniaod" /\ b.fault = "none"
+     /\ {<<b.consumes[i][1], b.consumes[i][2]>> : i \in DOMAIN b.consumes} # Uses(Q, Sig)
+  THEN {"TokensPerUse"} ELSE {}
 
 \* the booked tree against Schema(q) and the returned descriptor
 BookFails(b) ==
@@ -114,7 +128,7 @@ Translate ==
 
 Compile ==
   /\ pc = "translated"
-  /\ ReportAll(CompileFails, 0, 0)
+  /\ ReportAll(CompileFails \cup LibFails, 0, 0)
   /\ IF Case.compile.ok THEN pc' = "compiled" /\ UNCHANGED <<c, run, pos, judged, skipped>> ELSE Finish
 
 NextRun ==
@@ -122,7 +136,7 @@ NextRun ==
   /\ IF pc = "compiled" THEN TRUE ELSE pos >= Len(Case.runs[run].events)
   /\ IF run >= Len(Case.runs) THEN Finish
      ELSE LET b == Case.runs[run + 1].booked IN
-          /\ ReportAll(BookFails(b), run + 1, 0)
+          /\ ReportAll(BookFails(b) \cup TokenFails(b), run + 1, 0)
           /\ pc' = "booked" /\ run' = run + 1 /\ pos' = 0
           /\ UNCHANGED <<c, judged, skipped>>
 
